@@ -17,7 +17,7 @@ from .. import fsjail
 from ..driver import Ctx
 from ..refmodel import mutf7
 from ..report import Violation, finish
-from ..worlds import DictWorld, MaildirWorld, scratch_root
+from ..worlds import DictWorld, MaildirWorld, scratch_root, scratch_parent
 
 PROP = 'C08'
 
@@ -304,13 +304,16 @@ def cleanup_templates():
 
 
 def _work_wrapped(args):
-    try:
-        return _work(args)
-    finally:
-        cleanup_templates()
+    return _work(args)
 
 
 def run(*, tier, seed, jobs, progress, opts):
+    with scratch_parent():
+        return _run(tier=tier, seed=seed, jobs=jobs, progress=progress,
+                    opts=opts)
+
+
+def _run(*, tier, seed, jobs, progress, opts):
     t0 = time.perf_counter()
     maxc = int(opts.get('components', 2 if tier == 'quick' else 3))
     nm = names(maxc)
